@@ -16,7 +16,7 @@ PROP = "C15"
 LEVEL = "exploration"
 P = 0.1
 PROFILES = ["clean", "multi", "late", "lossy", "stall", "names", "none"]
-NAMES = ["Spa", "My Spa", "Spa du Châlet", "Ünïcödé ÿ", "A|B", "|lead", "trail|", "a|b|c", "Bad|Name Spa", "x" * 40, "  ", "Udp Test Spa",
+NAMES = ["Spa", "My Spa", "Spa du Châlet", "Ünïcödé ÿ", "A|B", "|lead", "trail|", "a|b|c", "Bad|Name Spa", "x" * 40, "  ", "Udp Test Spa", "", "",      # (a spa that was never given a name answers with an empty one)
          # every latin-1 code point is a legal name byte, also the C1 range 0x80-0x9f that other single-byte code pages map differently
          "Spa \x80 \x85", "\x81\x8d\x8f\x90\x9d", "C1 \x9f end", "\xa0\xff"]
 
@@ -288,6 +288,8 @@ async def scenario(world: WorldA) -> None:
                 world.violate(PROP, "phantom-spa", f"listed {ident!r} but no reply of it had arrived by the time discovery returned ({ctx})")
             if d.name != name:
                 world.violate(PROP, "name-mangled", f"spa {ident!r} listed with name {d.name!r}, it sent {name!r} ({ctx})")
+            if name == "":
+                res.probe("spa_without_a_name_listed")
             came_from = tuple(first_by_ident[ident][2])
             if came_from[1] != SPA_PORT:
                 res.probe("reply_from_another_port")
@@ -380,7 +382,7 @@ ASSUMPTIONS = [
     "the hello consumer takes one queued reply per polling interval; 'answered by the time of return' allows that service time",
     "two spas never share an identifier",
 ]
-PROBES = ["reply_from_another_port", "discovery_in_active_mode", "discovery_in_active_mode_shipped_tables", "blocking_locator", "identifier_given_as_bytes", "second_discovery_in_one_process", "name_with_separator", "duplicate_replies", "reply_after_return", "nothing_listed", "three_or_more_listed", "returned_on_requested_spa"]
+PROBES = ["reply_from_another_port", "spa_without_a_name_listed", "discovery_in_active_mode", "discovery_in_active_mode_shipped_tables", "blocking_locator", "identifier_given_as_bytes", "second_discovery_in_one_process", "name_with_separator", "duplicate_replies", "reply_after_return", "nothing_listed", "three_or_more_listed", "returned_on_requested_spa"]
 N_QUICK = 60000
 
 
